@@ -93,7 +93,9 @@ def aio_specs(r):
     """the clauses of C15 on an asyncio history: nothing raises, deleted stay deleted (never start again,
     never registered again), what vanished without a delete had no attempts left"""
     keep = ("no_start_after_delete", "no_task_error", "vanished although", "delete_registered_succeeds")
-    return [(q, info) for (q, info) in c18.specs(r) if any(info.get("what", "").startswith(k) for k in keep)]
+    from .. import aiomix as _am
+    # "delete other jobs, delete its own job, clear the scheduler": delete_jobs from a coroutine removes its whole selection
+    return [(q, info) for (q, info) in c18.specs(r) if any(info.get("what", "").startswith(k) for k in keep)] + _am.cop_sel_specs(r)
 
 
 def specs(r):
